@@ -238,3 +238,15 @@ def zero_spellings():
             for sp in ("0", "00", "000"):
                 text, _ = render({}, None, {d: sp}, t=t)
                 yield ("%smisplaced-zero:%s:%s" % (t.tag, d, sp), text)
+
+
+def declaration_numberings():
+    """parameter lists of DECLARATIONS with explicit IDs: (kind, text, valid). A declaration has no body whose numbering would be checked, so the parser has to
+    check the parameter IDs by itself — a misnumbered declaration that is accepted makes the printer fail."""
+    out = []
+    for ids, ok in ((["%0"], True), (["%0", "%1"], True), (["", "%1"], True), (["%0", ""], True), (["%1"], False), (["%0", "%2"], False), (["%0", "%0"], False),
+                    (["%1", "%0"], False), (["", "%0"], False), (["%a", "%0"], True), (["%a", "%1"], False), (["%0", "%a", "%1"], True), (["%0", "%a", "%2"], False),
+                    (["%00"], True), (["%0", "%00"], False), (["", "", "%2"], True), (["", "", "%3"], False)):
+        ps = ", ".join(("i32 " + i).strip() for i in ids)
+        out.append(("decl-params:" + ",".join(ids), "declare void @f(%s)\n" % ps, ok))
+    return out
